@@ -40,9 +40,11 @@ Definition mx_ref_decode (s : schema) (idx : nat) (data : bytes) (m0 : val) : op
 
 (* the computable side condition of Theorem T_dec (Unmarshal = ref_decode on every input) *)
 Definition mx_tdec_applies (s : schema) : bool := tdec_applies s.
+Definition mx_tdec_applies_at (s : schema) (idx : nat) : bool := tdec_applies_at s idx.
 
 (* the side conditions of the round-trip theorem (Schema/RoundTrip.v): on the schema, and on every generated value *)
 Definition mx_rt_applies (s : schema) : bool := rt_applies s.
+Definition mx_rt_applies_at (s : schema) (idx : nat) : bool := rt_applies_at s idx.
 Definition mx_rt_ok (s : schema) (idx : nat) (v : val) : bool :=
   let m := msgv_of v in rt_ok (S (S (val_depth 100000 v))) s idx (fst m) (snd m).
 
@@ -75,7 +77,7 @@ Extraction "model.ml"
   mx_writer mx_writer_enum mx_reader mx_dur_join mx_dur_split mx_time_unix mx_enc_duration mx_enc_timestamp
   Z.add Z.mul Z.sub Z.opp Z.of_nat Z.to_nat Z.div_eucl Z.eqb Z.ltb Z.compare
   mx_bitset_run mx_fn_string
-  mx_gen_all mx_tdec_applies mx_rt_applies mx_rt_ok mx_msg_ok mx_marshal mx_unmarshal mx_zero mx_norm mx_ref_encode mx_ref_decode mx_wf_input
+  mx_gen_all mx_tdec_applies mx_tdec_applies_at mx_rt_applies mx_rt_applies_at mx_rt_ok mx_msg_ok mx_marshal mx_unmarshal mx_zero mx_norm mx_ref_encode mx_ref_decode mx_wf_input
   consume_varint append_varint consume_field_value consume_tag consume_bytes consume_fixed32 consume_fixed64
   append_tag pw_append_tag size_varint enc_single enc_repeated dec_single dec_repeated
   dur_split dur_join time_unix.
